@@ -12,6 +12,6 @@ except Undecided as e:
 print(r["status"], "verified", r["verified"], "errors", r["errors"], r["reasons"][:3])
 for e in r["errs"][:int(sys.argv[2]) if len(sys.argv) > 2 else 12]:
     print("--", e.get("line"), e["msg"][:600])
-    for k in ("label", "text", "owner"):
+    for k in ("label", "text", "owner", "primary", "lines"):
         if e.get(k): print("   ", k, str(e[k])[:300])
 print("file:", r.get("file"))
